@@ -630,7 +630,15 @@ def check_mixed_drivers(l, rng, out):
     m = Module()
     cd = ClockDomain("sync", reset_less=True)
     m.domains.sync = cd
-    raw = Signal(size, init=init, name="raw")
+    if rng.random() < 0.5 and size >= 3:
+        # the view sits on a concatenation of three or more separate signals
+        cuts = sorted(rng.sample(range(1, size), min(size - 1, rng.randrange(2, 5))))
+        bounds = [0] + cuts + [size]
+        pieces = [Signal(hi - lo, init=(init >> lo) & ((1 << (hi - lo)) - 1), name=f"piece{k}") for k, (lo, hi) in enumerate(zip(bounds, bounds[1:]))]
+        raw = Cat(*pieces)
+        out["hist"]["mixed-driver-views:over-a-concatenation"] = out["hist"].get("mixed-driver-views:over-a-concatenation", 0) + 1
+    else:
+        raw = Signal(size, init=init, name="raw")
     view = data.View(real(l), raw)
     vin = Signal(8, name="vin")
     roles = []
@@ -751,7 +759,11 @@ def check_flags(rng, out):
     b = Signal(A)
     res = {}
     for name, expr in (("inv", lambda: ~a), ("and", lambda: a & b), ("or", lambda: a | b), ("xor", lambda: a ^ b),
-                       ("andnot", lambda: a & ~b), ("rand", lambda: A(members["F0"]) & a)):
+                       ("andnot", lambda: a & ~b), ("rand", lambda: A(members["F0"]) & a),
+                       # a plain member on the left (reflected operators) and on the right, for every operator
+                       ("ror", lambda: A(members["F0"]) | a), ("rxor", lambda: A(members["F0"]) ^ a),
+                       ("and-member", lambda: a & A(members["F0"])), ("or-member", lambda: a | A(members["F0"])),
+                       ("xor-member", lambda: a ^ A(members["F0"])), ("rxor-inv", lambda: A(members["F0"]) ^ ~a)):
         o = Signal(width)
         m.d.comb += o.eq(Value.cast(expr()))
         res[name] = o
@@ -774,7 +786,10 @@ def check_flags(rng, out):
                 px, pyv = P(x), P(y)
                 exp = {"inv": py(lambda: ~px), "and": py(lambda: px & pyv), "or": py(lambda: px | pyv),
                        "xor": py(lambda: px ^ pyv), "andnot": py(lambda: px & ~pyv),
-                       "rand": py(lambda: P(members["F0"]) & px)}
+                       "rand": py(lambda: P(members["F0"]) & px), "ror": py(lambda: P(members["F0"]) | px),
+                       "rxor": py(lambda: P(members["F0"]) ^ px), "and-member": py(lambda: px & P(members["F0"])),
+                       "or-member": py(lambda: px | P(members["F0"])), "xor-member": py(lambda: px ^ P(members["F0"])),
+                       "rxor-inv": py(lambda: P(members["F0"]) ^ ~px)}
                 for name, o in res.items():
                     if exp[name] is None:
                         continue
